@@ -304,7 +304,7 @@ func TestC07Model(t *testing.T) {
 			c.Programs = append(c.Programs, p)
 			texts = append(texts, p.Text())
 		}
-		c.NoMap = rapid.IntRange(0, 5).Draw(rt, "nomap") == 0
+		c.NoMap = rapid.IntRange(0, 3).Draw(rt, "nomap") == 0
 		msg, unspec := checkProgs(c)
 		if unspec {
 			run.Class("unspecified-skipped")
@@ -478,6 +478,19 @@ func TestC07FrameGrid(t *testing.T) {
 	run.Exhaustive()
 }
 
+// withoutRec copies a program, turning every call of rec / recf into an array literal of its arguments.
+func withoutRec(n *ref.Node) *ref.Node {
+	c := *n
+	c.Kids = nil
+	for _, k := range n.Kids {
+		c.Kids = append(c.Kids, withoutRec(k))
+	}
+	if c.Kind == "call" && len(c.Kids) > 0 && c.Kids[0].Kind == "id" && (c.Kids[0].Val == "rec" || c.Kids[0].Val == "recf") {
+		return &ref.Node{Kind: "arr", Kids: c.Kids[1:]}
+	}
+	return &c
+}
+
 // checkProgsNoMap: the same model on a runner without a caller map (results only;
 // programs that call rec are outside the model there).
 func checkProgsNoMap(c progCase, r *formula.Runner, env *miniEnv) (string, bool) {
@@ -487,14 +500,12 @@ func checkProgsNoMap(c progCase, r *formula.Runner, env *miniEnv) (string, bool)
 		if !p.OK() {
 			return fmt.Sprintf("HARNESS: program %q does not parse: %v", text, p.Err), false
 		}
-		usesRec := false
-		prog.Walk(func(n *ref.Node) {
-			if n.Kind == "id" && (n.Val == "rec" || n.Val == "recf") {
-				usesRec = true
-			}
-		})
-		if usesRec {
-			return "", true
+		// no data, no host functions: a call rec(a, b) of the generated program becomes the list [a, b]
+		// (a spread list stays a list element) - assignments inside lists bind like any other
+		prog = withoutRec(prog)
+		text = prog.Text()
+		if p = obs.Parse([]byte(text)); !p.OK() {
+			return fmt.Sprintf("HARNESS: program %q does not parse: %v", text, p.Err), false
 		}
 		want, wantErr := env.eval(prog)
 		if env.unspec {
